@@ -12,6 +12,7 @@ META = {
 }
 MODULES = ["contracts.lemmas", "contracts.local"]
 LEVEL = "proof"
+DEEP_FALLBACK = True
 EXPLANATION = "Every obligation generated from dask/local.py's scheduler functions is discharged; see trusted_base for the assumed external contracts."
 TRUSTED = [
     "VC generator /verif/vf", "z3 5.1 / z3 4.8.12 / cvc5 1.0.3",
@@ -28,7 +29,7 @@ NATIVE_COVERS = {q: ["get_async"] for q in ("release_data", "finish_task", "get_
 
 def native(tier, seed):
     from vf import sched_native
-    return [sched_native.sweep(tier, seed)]
+    return [sched_native.sweep(tier, seed), sched_native.remote_exception_sweep(tier, seed)]
 
 
 def replay_native(native):
